@@ -873,11 +873,10 @@ def e2e_case(rng, nvalues, with_proxy, res, driver):
                    'ret': None if err is not None else pval(got_back),
                    'cache': None if entry.readerror is not None else pval(entry.value),
                    'ts': fj(ts) if isinstance(ts, (int, float)) and not isinstance(ts, bool) else None, 'clock': fj(t_after + 1e-6)}
-            mreq = None
-            if via == 'client':     # correspondence: the datatype model's account of the same write
-                cdt = client.modules[m]['parameters'][p]['datatype']
-                mreq = {'p': PROP, 'k': 'e2e', 'dt': dt_to_tree(dt), 'cdt': dt_to_tree(cdt), 'prev': pval(prev), 'passed': pval(v),
-                        'ret': None if back is None else pval(back)}
+            # correspondence: the datatype model's account of the same write (directly, or through the proxy module)
+            cdt = (client if via == 'client' else psec).modules[m]['parameters'][p]['datatype']
+            mreq = {'p': PROP, 'k': 'e2e', 'via': via, 'dt': dt_to_tree(dt), 'cdt': dt_to_tree(cdt), 'prev': pval(prev),
+                    'passed': pval(v), 'ret': None if back is None else pval(back)}
             models.append(mreq)
             pending.append((req, f'{via}: wrote {v!r} to {m}:{p} ({dt!r}); driver got {w!r}, returned {returned!r}; setParameter '
                                  f'gave {got_back!r} (error {err!r}); cache has {entry!r} (ts {ts!r} vs clock {t_after!r})',
@@ -922,7 +921,7 @@ def e2e_case(rng, nvalues, with_proxy, res, driver):
             ma = next(manswers)
             if 'driver_error' in ma:
                 raise RuntimeError(f'driver error: {ma} for {mreq}')
-            impl = {'got': req['got'][0] if len(req['got']) == 1 else None, 'cache': req['cache']}
+            impl = {'got': req['got'][0] if len(req['got']) == 1 else None, 'cache': req['cache'], 'ret': req['ret']}
             if res_model_ok(res) and ma != impl:
                 res.disagreements.append({'case': {'kind': 'e2e', 'what': text, 'request': mreq}, 'model': ma, 'impl': impl})
         if a['ok']:
